@@ -236,4 +236,146 @@ theorem start_current_targets (s : Stream) (r : Rd Nat) (n : Nat) (d : Int) (hd 
     simp only [h1, if_false, h2, h3]
     simp
 
+
+/-! ### the per-channel reader -/
+
+/-- PCM frames the channel reader can still hand out -/
+def avail (r : ChanRd) : Nat := (r.pcmFrames - r.consumed) + lens r.dec.rest
+
+/-- channel `c` exists in the frame being consumed and in every unread frame -/
+def ChanIn (c : Nat) (r : ChanRd) : Prop := (∀ f ∈ r.dec.rest, c < f.chans.length) ∧ (r.frame = [] ∨ c < r.frame.length)
+
+theorem rest_chan_length (c : Nat) (fs : List FrameInfo) (hrect : ∀ f ∈ fs, Rect f) (hin : ∀ f ∈ fs, c < f.chans.length) :
+    (fs.flatMap (fun f => f.chans.getD c [])).length = lens fs := by
+  induction fs with
+  | nil => simp [lens]
+  | cons f fs ih =>
+    have hc := hin f (by simp)
+    have : (f.chans.getD c []).length = f.len := by
+      rw [List.getD_eq_getElem?_getD, List.getElem?_eq_getElem hc]
+      exact hrect f (by simp) _ (List.getElem_mem hc)
+    simp only [List.flatMap_cons, List.length_append, this, lens, List.map_cons, List.sum_cons]
+    have := ih (fun g hg => hrect g (by simp [hg])) (fun g hg => hin g (by simp [hg]))
+    simp only [lens] at this
+    omega
+
+theorem frame_chan_length (c : Nat) (r : ChanRd) (hr : FrameRect r) (hin : r.frame = [] ∨ c < r.frame.length) :
+    (r.frame.getD c []).length = r.pcmFrames := by
+  rcases hin with h | h
+  · simp [h, ChanRd.pcmFrames]
+  · rw [List.getD_eq_getElem?_getD, List.getElem?_eq_getElem h]
+    exact hr _ (List.getElem_mem h)
+
+theorem chanRemaining_length (c : Nat) (r : ChanRd) (hr : FrameRect r) (hrest : ∀ f ∈ r.dec.rest, Rect f) (hin : ChanIn c r) :
+    (chanRemaining c r).length = avail r := by
+  simp only [chanRemaining, List.length_append, List.length_drop, frame_chan_length c r hr hin.2,
+    rest_chan_length c r.dec.rest hrest hin.1, avail]
+
+/-- the channel reader's skip-forward loop drops exactly the requested number of PCM frames from EVERY channel when
+    that many remain, and fails otherwise -/
+theorem chan_skipTo_spec (s : Stream) (c : Nat) (want : Nat) (fuel : Nat) (r : ChanRd) (pos : Nat)
+    (hg : Good s r.dec) (hr : FrameRect r) (hrest : ∀ f ∈ r.dec.rest, Rect f) (hin : ChanIn c r) (hfuel : want - pos < fuel) :
+    (want - pos ≤ avail r →
+        ∃ r', ChanRd.skipTo s want fuel r pos = (none, r') ∧ Good s r'.dec ∧ FrameRect r' ∧ (∀ f ∈ r'.dec.rest, Rect f)
+          ∧ chanRemaining c r' = (chanRemaining c r).drop (want - pos))
+    ∧ (avail r < want - pos → ∃ e r', ChanRd.skipTo s want fuel r pos = (some e, r')) := by
+  induction fuel generalizing r pos with
+  | zero => omega
+  | succ fuel ih =>
+    unfold ChanRd.skipTo
+    by_cases hp : pos ≥ want
+    · simp only [hp, if_true]
+      have : want - pos = 0 := by omega
+      exact ⟨fun _ => ⟨r, rfl, hg, hr, hrest, by simp [this]⟩, fun h => by omega⟩
+    · simp only [hp, if_false]
+      obtain ⟨b, r1, h1, hg1, hr1, hrest1, hrem, hblen, hsub, hframe, hzero⟩ := chanFill_exact s r hg hr hrest
+      simp only [h1]
+      have hin1 : ChanIn c r1 := by
+        refine ⟨fun f hf => hin.1 f (hsub f hf), ?_⟩
+        rcases hframe with h | h | ⟨f, hf, h⟩
+        · rw [h]; exact hin.2
+        · exact Or.inl h
+        · right; rw [h]; exact hin.1 f hf
+      have hav : avail r1 = avail r := by
+        rw [← chanRemaining_length c r1 hr1 hrest1 hin1, ← chanRemaining_length c r hr hrest hin, hrem c]
+      by_cases he : (b.headD []).isEmpty = true
+      · rw [if_pos he]
+        have hl0 : r1.pcmFrames - r1.consumed = 0 := by
+          rw [← hblen]; simpa using he
+        have : avail r = 0 := by
+          rw [← hav]; simp [avail, hl0, hzero hl0, lens]
+        exact ⟨fun h => by omega, fun _ => ⟨_, _, rfl⟩⟩
+      · rw [if_neg he]
+        have hbpos : 0 < (b.headD []).length := by
+          cases hb : b.headD [] with
+          | nil => rw [hb] at he; simp at he
+          | cons x xs => simp
+        have hm1 : 1 ≤ min (b.headD []).length (want - pos) := by
+          have : 1 ≤ want - pos := by omega
+          exact Nat.le_min.mpr ⟨hbpos, this⟩
+        have hmle : min (b.headD []).length (want - pos) ≤ r1.pcmFrames - r1.consumed := by
+          rw [← hblen]; exact Nat.min_le_left _ _
+        -- consuming m ≤ what the current frame holds drops m from the channel
+        have hcons : chanRemaining c (r1.consume (min (b.headD []).length (want - pos)))
+            = (chanRemaining c r).drop (min (b.headD []).length (want - pos)) := by
+          rw [← hrem c]
+          simp only [chanRemaining, ChanRd.consume]
+          rw [List.drop_append_of_le_length (by rw [List.length_drop, frame_chan_length c r1 hr1 hin1.2]; exact hmle), List.drop_drop]
+        have hav2 : avail (r1.consume (min (b.headD []).length (want - pos))) = avail r - min (b.headD []).length (want - pos) := by
+          rw [← hav]
+          simp only [avail, ChanRd.consume, ChanRd.pcmFrames] at hmle ⊢
+          omega
+        have hm_av : min (b.headD []).length (want - pos) ≤ avail r := by
+          rw [← hav]; simp only [avail]; omega
+        have hm_w : min (b.headD []).length (want - pos) ≤ want - pos := Nat.min_le_right _ _
+        obtain ⟨ihA, ihB⟩ := ih (r1.consume (min (b.headD []).length (want - pos))) (pos + min (b.headD []).length (want - pos))
+          hg1 (fun ch hch => hr1 ch hch) hrest1 hin1 (by omega)
+        constructor
+        · intro hle
+          obtain ⟨r', e1, e2, e3, e4, e5⟩ := ihA (by rw [hav2]; omega)
+          refine ⟨r', e1, e2, e3, e4, ?_⟩
+          rw [e5, hcons, List.drop_drop]
+          congr 1; omega
+        · intro hlt
+          exact ihB (by rw [hav2]; omega)
+
+/-- **chan_seek_lands**: after `FlacChannelReader::seek(sample)` on a valid rectangular stream with a truthful seek table
+    (or none), what channel `c` will deliver is exactly that channel of the whole stream from PCM frame `sample` on, when
+    that position exists; and the seek fails when it does not. -/
+theorem chan_seek_lands (s : Stream) (c : Nat) (sample : Nat) (hok : StreamOk s) (ht : TableTruthful s)
+    (hrect : ∀ f ∈ s.frames, Rect f) (hin : ∀ f ∈ s.frames, c < f.chans.length) :
+    (sample ≤ lens s.frames →
+      ∃ r', ChanRd.seek s sample = (none, r')
+        ∧ chanRemaining c r' = (s.frames.flatMap (fun f => f.chans.getD c [])).drop sample ∧ Good s r'.dec)
+    ∧ (lens s.frames < sample → ∃ e r', ChanRd.seek s sample = (some e, r')) := by
+  obtain ⟨pre, post, hsplit, hdec, hland, hle, hgood⟩ := seek_lands s sample hok ht
+  unfold ChanRd.seek
+  have hpair : Dec.seek s sample = ((Dec.seek s sample).1, (Dec.seek s sample).2) := rfl
+  rw [hpair, hdec, hland]
+  dsimp only
+  have hrpost : ∀ f ∈ post, Rect f := fun f hf => hrect f (by rw [hsplit]; simp [hf])
+  have hinpost : ∀ f ∈ post, c < f.chans.length := fun f hf => hin f (by rw [hsplit]; simp [hf])
+  have hfr : FrameRect { dec := { rest := post, cur := lens pre }, frame := [], consumed := 0 } := by
+    intro ch hch; simp at hch
+  have hci : ChanIn c { dec := { rest := post, cur := lens pre }, frame := [], consumed := 0 } := ⟨hinpost, Or.inl rfl⟩
+  obtain ⟨hA, hB⟩ := chan_skipTo_spec s c sample (sample + 2) { dec := { rest := post, cur := lens pre }, frame := [], consumed := 0 }
+    (lens pre) hgood hfr hrpost hci (by omega)
+  have hav : avail { dec := { rest := post, cur := lens pre }, frame := [], consumed := 0 } = lens post := by
+    simp [avail, ChanRd.pcmFrames]
+  have hl : lens s.frames = lens pre + lens post := by rw [hsplit, lens_append]
+  have hrem0 : chanRemaining c { dec := { rest := post, cur := lens pre }, frame := [], consumed := 0 }
+      = post.flatMap (fun f => f.chans.getD c []) := by simp [chanRemaining]
+  have hprelen : (pre.flatMap (fun f => f.chans.getD c [])).length = lens pre :=
+    rest_chan_length c pre (fun f hf => hrect f (by rw [hsplit]; simp [hf])) (fun f hf => hin f (by rw [hsplit]; simp [hf]))
+  constructor
+  · intro hw
+    obtain ⟨r', e1, e2, _, _, e5⟩ := hA (by rw [hav]; omega)
+    refine ⟨r', e1, ?_, e2⟩
+    rw [e5, hrem0, hsplit, List.flatMap_append]
+    have hd : (pre.flatMap (fun f => f.chans.getD c [])).drop sample = [] := List.drop_of_length_le (by rw [hprelen]; exact hle)
+    rw [List.drop_append, hd, hprelen]
+    simp
+  · intro hw
+    exact hB (by rw [hav]; omega)
+
 end Flac.C06
